@@ -504,3 +504,80 @@ def unit_constant_init():
                 "assumptions": ["A-TOK: tokenize_without_space(rule) delivers a finite token list ending in one ENDMARKER (only the ENDMARKER for the empty text), or raises InterfaceError for untokenizable text (G-1)",
                                 "Range.validate is used through its verified contract (contracts/ranges.py) as the predicate length_accepts"]}
     return ProofUnit("fields.ConstantFieldFormat.__init__", "ConstantFieldFormat.__init__: the constant is the single token of the rule; empty rule iff the field may be empty; the length must admit it", ["C02", "C09", "C10"], make, None)
+
+
+def unit_integer_init():
+    ITEM = Tup(Opt(INT), Opt(INT)); its = sort_of(ITEM); OI = sort_of(Opt(INT))
+    def int_text_len(z): return z3.Length(z3.If(z < 0, z3.Concat(z3.StringVal("-"), z3.IntToStr(-z)), z3.IntToStr(z)))
+    def setup(ex, st):
+        rule = fresh(STR, "rule")[0]; ae = fresh(BOOL, "allowed_empty")[0]; lt = fresh(STR, "length_text")[0]
+        self = _field_init_env(ex, st, "IntegerFieldFormat", rule, ae)
+        env = st.frames[-1].env; del env["length"]; env.update({"length_text": lt, "empty_value": None})
+        st.ghost.update({"rule": rule, "this": self, "lt": lt, "range_failed": False, "from_length_failed": False, "fmt": st.heap[env["data_format"].oid]["_format"],
+                         "rule_range": None, "length_range": None, "fixed_length_range": None, "derived": None, "default_range": None})
+    def m_range(ex, st, info, args, kw):
+        text = args[0]
+        if True:
+            sb = st.copy(); sb.ghost["range_failed"] = True; yield from raise_new(ex, sb, "InterfaceError")
+        r = Ref("Range"); items, c = fresh(UFList(ITEM), "items"); st.pc.extend(c)
+        lo = fresh(Opt(INT), "lo")[0]; hi = fresh(Opt(INT), "hi")[0]
+        st.heap[r.oid] = {"_items": items, "_lower_limit": lo, "_upper_limit": hi, "_description": text}
+        g = st.ghost
+        if text is g["rule"]: g["rule_range"] = r
+        elif text is g["lt"]: g["length_range"] = r
+        elif isinstance(text, str): g["default_range"] = (r, text)
+        else: g["fixed_length_range"] = (r, lift(text).z)
+        yield st, r
+    def m_from_length(ex, st, fn, args, kw):
+        if True:
+            sb = st.copy(); sb.ghost["from_length_failed"] = True; yield from raise_new(ex, sb, "RangeValueError")
+        r = Ref("Range"); st.heap[r.oid] = {"_items": None}; st.ghost["derived"] = (r, args[0]); yield st, r
+    def has(ex, st, name): 
+        strip = ex.absfun_s("str_strip", [z3.StringSort()], z3.StringSort()); return strip(G(st, name)) != ""
+    def fits(ex, z): return ex.absfun_s("length_accepts", [z3.IntSort()], z3.BoolSort())(int_text_len(z))
+    def item_fits(ex, it):
+        lo = its.accessor(0, 0)(it); hi = its.accessor(0, 1)(it)
+        return z3.And(z3.Implies(OI.is_some(lo), fits(ex, OI.val(lo))), z3.Implies(OI.is_some(hi), fits(ex, OI.val(hi))))
+    def fits_upto(ex, st, k):
+        rr = st.ghost["rule_range"]; items = st.heap[rr.oid]["_items"]; j = z3.Int("j!fi"); kk = lift(k).z
+        return Sym(BOOL, z3.ForAll([j], z3.Implies(z3.And(0 <= j, j < kk), item_fits(ex, items.at(j)))))
+    def n_items(ex, st): return Sym(INT, st.heap[st.ghost["rule_range"].oid]["_items"].length)
+    def fixed_ok(ex, st):
+        L = st.ghost["length_range"]
+        if L is None: return z3.BoolVal(True)
+        lo = lift(st.heap[L.oid]["_lower_limit"]).z; hi = lift(st.heap[L.oid]["_upper_limit"]).z
+        return z3.And(OI.is_some(lo), lo == hi)
+    def c_valid_range(ex, st):
+        """which range became valid_range, case by case"""
+        g = st.ghost; vr = st.heap[g["this"].oid].get("valid_range"); hl = has(ex, st, "lt"); hr = has(ex, st, "rule"); fixed = G(st, "fmt") == "fixed"
+        is_rule = z3.BoolVal(g["rule_range"] is not None and vr is g["rule_range"])
+        L = g["length_range"]
+        if g["derived"] is not None:
+            d, src = g["derived"]
+            if g["fixed_length_range"] is not None:
+                fr, text = g["fixed_length_range"]; up = OI.val(lift(st.heap[L.oid]["_upper_limit"]).z)
+                from_fixed = z3.And(z3.BoolVal(src is fr), text == z3.Concat(z3.StringVal("1..."), z3.If(up < 0, z3.Concat(z3.StringVal("-"), z3.IntToStr(-up)), z3.IntToStr(up))))
+            else: from_fixed = z3.BoolVal(False)
+            derived_ok = z3.And(z3.BoolVal(vr is d), z3.If(fixed, from_fixed, z3.BoolVal(src is L)))
+        else: derived_ok = z3.BoolVal(False)
+        dflt = g["default_range"]
+        is_default = z3.BoolVal(dflt is not None and vr is dflt[0] and dflt[1] == "%d...%d" % (-2 ** 31, 2 ** 31 - 1))
+        return Sym(BOOL, z3.If(hr, is_rule, z3.If(hl, derived_ok, is_default)))
+    def c_good(ex, st):
+        g = st.ghost; hl = has(ex, st, "lt"); hr = has(ex, st, "rule"); fixed = G(st, "fmt") == "fixed"
+        allfit = fits_upto(ex, st, n_items(ex, st)).z if g["rule_range"] is not None else z3.BoolVal(True)
+        return z3.And(z3.Implies(z3.And(hl, fixed), fixed_ok(ex, st)), z3.Implies(z3.And(hl, hr), allfit))
+    def make(ctx):
+        c = Contract("fields.IntegerFieldFormat.__init__", setup,
+                returns=[Clause(c_valid_range, "valid-range-is-the-rule's-range-else-the-range-derived-from-the-length-(1...width-for-fixed)-else-the-signed-32-bit-range", props=["C02"]),
+                         Clause(lambda ex, st: Sym(BOOL, c_good(ex, st)), "accepted-only-if-every-limit-of-the-rule-fits-the-length-and-a-fixed-length-is-one-number", props=["C02", "C09"])],
+                raises={"InterfaceError": [Clause(lambda ex, st: Sym(BOOL, z3.Or(z3.BoolVal(bool(st.ghost["range_failed"]) or bool(st.ghost["from_length_failed"])), z3.Not(c_good(ex, st)))),
+                                                  "refused-only-for-a-broken-range-text-an-underivable-length-or-a-rule-limit-that-does-not-fit", props=["C02", "C09"])]},
+                loops={0: LoopSpec(invariants=["fits_upto(_i0)"], havoc={"rule_item": ITEM, "partial_rule_limit": INT, "length_of_partial_rule_limit": INT}, locals_ok=("partial_rule_limits",))},
+                expect=["return", "InterfaceError"], raises_only_props=["C02", "C10"])
+        return {"contract": c, "callees": {"class:Range": m_range, "ranges.create_range_from_length": ModelContract(m_from_length), "ref:Range.validate": m_range_validate_pred("length_accepts")},
+                "spec_functions": {"fits_upto": fits_upto},
+                "assumptions": ["Range(text) is used through its verified contract (contracts/ranges_init.py): a Range with items / limits, or InterfaceError",
+                                "create_range_from_length is used through its contract (bounded: fields.length-range sweep): a Range or RangeValueError",
+                                "Range.validate is used through its verified contract as the predicate length_accepts; str(int) is the decimal text with a leading '-' for negatives (A-STR)"]}
+    return ProofUnit("fields.IntegerFieldFormat.__init__", "IntegerFieldFormat.__init__: which range becomes valid_range (rule / derived from length / 32 bit) and the length-vs-rule consistency loop", ["C02", "C09", "C10"], make, None)
